@@ -168,7 +168,7 @@ def parse_date(date):
     if isinstance(date, string_types):
         try:
             return to_date(date)
-        except ValueError:
+        except (ValueError, OverflowError):  # dateutil overflows on "99999999999999999999 1"
             pass
     return error.VALUE
 
